@@ -836,12 +836,18 @@ func driverCorrupt(c *Ctx) {
 
 var _ = strings.Repeat
 
-// deepRefusals: 130 messages of 16 384 nested lists each, well-formed down to the innermost item, which the item
+// deepRefusals: 130 messages of 16 384 nested lists each (and then shallower ones), well-formed down to the innermost item, which the item
 // factories refuse (a float that is not finite) or which is cut short - the decoder gives up with all those lists open.
 // Nothing of that may be left for the decode that follows.
 func deepRefusals(g *Gen) {
-	const depth = 16384
-	for k := 0; k < 130; k++ {
+	// (then the same with ever shallower nesting: 256, 4 and 1 lists - whatever the refusals add up to, they add up finely)
+	plan := []int{}
+	for _, x := range [][2]int{{16384, 130}, {256, 130}, {4, 130}, {1, 16}} {
+		for k := 0; k < x[1]; k++ {
+			plan = append(plan, x[0])
+		}
+	}
+	for k, depth := range plan {
 		t := make([]byte, 0, 2*depth+16)
 		for j := 0; j < depth; j++ {
 			t = append(t, 0x01, 0x01)
